@@ -350,6 +350,21 @@ class HandleRule:
                             t = _handle_name(e.targets[0])
                             if t:
                                 self.aliases.add(t)
+        # plain aliases `x = handle` (and `handle = x` for the name the acquisition was first bound to)
+        self.same = {handle}
+        for n in g.nodes.values():
+            for e in node_exprs(n):
+                if isinstance(e, ast.Assign) and len(e.targets) == 1 and isinstance(e.targets[0], ast.Name) \
+                        and _handle_name(e.value) in self.same:
+                    self.same.add(e.targets[0].id)
+        for n in g.nodes.values():
+            for e in node_exprs(n):
+                if isinstance(e, ast.Assign) and isinstance(e.value, ast.Call) and callee_name(e.value) in wrappers:
+                    a = arg_of(e.value, wrappers[callee_name(e.value)], None)
+                    if a is not None and _handle_name(a) in self.same:
+                        t = _handle_name(e.targets[0])
+                        if t:
+                            self.aliases.add(t)
         self.parked = handle.startswith("self.")
         self.problems: list[tuple[str, int, object]] = []
 
@@ -365,10 +380,10 @@ class HandleRule:
         for c in node_calls(node):
             if isinstance(c.func, ast.Attribute):
                 recv = _handle_name(c.func.value)
-                if recv == self.h or recv in self.aliases:
+                if recv in self.same or recv in self.aliases:
                     if c.func.attr in self.commit_attrs:
                         ev.append("COMMIT")
-                    elif c.func.attr in self.abort_attrs and recv == self.h:
+                    elif c.func.attr in self.abort_attrs and recv in self.same:
                         ev.append("ABORT")
         for e in node_exprs(node):
             # ownership leaves: returned, yielded, stored on an attribute / container
@@ -378,7 +393,7 @@ class HandleRule:
                 vals = e.value.elts if isinstance(e.value, ast.Tuple) else [e.value]
                 if any(_handle_name(v) == self.h for v in vals):
                     ev.append("ESCAPE")
-            if isinstance(e, ast.Assign) and _handle_name(e.value) == self.h:
+            if isinstance(e, ast.Assign) and _handle_name(e.value) in self.same:
                 t = e.targets[0]
                 if isinstance(t, (ast.Attribute, ast.Subscript)):
                     ev.append("ESCAPE")
@@ -388,7 +403,7 @@ class HandleRule:
         if node.kind != "test":
             return None
         t = node.ast
-        if isinstance(t, ast.Attribute) and t.attr == "closed" and _handle_name(t.value) == self.h:
+        if isinstance(t, ast.Attribute) and t.attr == "closed" and _handle_name(t.value) in self.same:
             return True
         return None
 
@@ -617,6 +632,8 @@ def run(prog: Program, rep, tier="quick"):
                         "os.remove of the lock path succeeds when attempted"]
     r07_1(prog, rep)
     r07_2(prog, rep)
+    from sa.common import alias_guard
+    alias_guard(prog, rep, "R07.2", {"GitFile", "_GitFile"})
     rep.floor("R07.1b", 4)
     rep.floor("R07.2", 20)
     from rules import c07_who
